@@ -1015,6 +1015,27 @@ pub fn crossing_involution(d: &Diagram, tau_edge: &[usize]) -> Option<Vec<usize>
     Some(out)
 }
 
+/// How tau acts on the cyclic order of the four slots of every crossing: `(reflecting, rotating)`
+/// = (every crossing admits an orientation-reversing matching, every crossing admits an
+/// orientation-preserving one).  A symmetry with the axis in the projection plane (transvergent
+/// diagram, as in the library's table) reflects; a symmetry by a rotation of the projection sphere
+/// (axis perpendicular to the plane) preserves the cyclic order.  Kinks can admit both.
+pub fn involution_type(d: &Diagram, tau_edge: &[usize]) -> Option<(bool, bool)> {
+    let tau_x = crossing_involution(d, tau_edge)?;
+    let e = d.edge_of_dart();
+    let (mut all_refl, mut all_rot) = (true, true);
+    for c in 0..d.n {
+        let c2 = tau_x[c];
+        let img: Vec<usize> = (0..4).map(|s| tau_edge[e[4 * c + s]]).collect();
+        let tgt: Vec<usize> = (0..4).map(|s| e[4 * c2 + s]).collect();
+        let rot = (0..4).any(|r| (0..4).all(|k| tgt[(k + r) % 4] == img[k]));
+        let refl = (0..4).any(|r| (0..4).all(|k| tgt[(r + 4 - k) % 4] == img[k]));
+        all_rot &= rot;
+        all_refl &= refl;
+    }
+    Some((all_refl, all_rot))
+}
+
 /// homology of Cone(1 + tau : CKh -> CKh) over F_2, as dimensions: total per degree and
 /// (if h = t = 0) per bidegree; q(Q x) = q(x), h(Q x) = h(x) + 1
 pub fn khovanov_involutive(d: &Diagram, tau_edge: &[usize], h: &Fp<2>, t: &Fp<2>, base_edge: Option<usize>) -> Option<KhTable<Fp<2>>> {
